@@ -264,11 +264,12 @@ def stmtWrites : RStmt → List Res
   | .bc _ w _ _ => [.arr (.work w)]
   | .bad _ => []
 
+/-- what a statement may read (for a procedure: every array it is handed, outputs included — conservative) -/
 def stmtReads : RStmt → List Res
-  | .proc p args => (args.zipIdx.filter fun (_, i) => !(procOuts p).contains i).flatMap fun (a, _) => argRefs a
+  | .proc _ args => args.flatMap argRefs
   | .setSc _ _ args => args.flatMap exprReads
   | .tab _ _ _ _ args => args.flatMap exprReads
-  | .store _ _ _ _ e => exprReads e
+  | .store _ _ r _ e => .arr r :: exprReads e
   | .bc cond w _ e => cond.flatMap cmpReads ++ [.arr (.work w)] ++ exprReads e
   | .bad _ => []
 
@@ -318,18 +319,27 @@ def resolveAllocs (K : C.KernelSig) (l : List (String × C.KBound)) : List (WArr
     | some w => some (w, resolveBound K b)
     | none => none)
 
-def resolve (K : C.KernelSig) (p : C.KernelProg) : KProgR :=
+/-- the translated body with every name resolved, statements in SOURCE order -/
+def resolveSrc (K : C.KernelSig) (p : C.KernelProg) : KProgR :=
   { name := p.name, d := p.d, ax := p.ax, pre := p.pre,
     allocs := resolveAllocs K p.allocs,
     solAllocOk := p.allocs.all fun (role, b) => role != "sol" || resolveBound K b == .dim p.ax 0,
     migAxes := K.roleMig.map (·.2),
     nest := p.nest.map fun (lo, hi) => (resolveBound K lo, resolveBound K hi),
-    stmts := canonOrder (p.stmts.flatMap (resolveStmt K)) }
+    stmts := p.stmts.flatMap (resolveStmt K) }
+
+/-- …and in canonical order (`Lemmas/KernelOrder.lean`: running the two is the same) -/
+def resolve (K : C.KernelSig) (p : C.KernelProg) : KProgR :=
+  { resolveSrc K p with stmts := canonOrder (resolveSrc K p).stmts }
+
+/-- the signature table entry of a translated kernel body -/
+def sigOf (p : C.KernelProg) : Option C.KernelSig :=
+  C.kernelSigs.find? (fun K => K.name == p.name && K.d == p.d && K.ax == p.ax && K.pre == p.pre)
 
 /-- every translated kernel body, resolved against the signature table entry of the same name -/
 def resolvedAll : List KProgR :=
   C.kernelProgs.map fun p =>
-    match C.kernelSigs.find? (fun K => K.name == p.name && K.d == p.d && K.ax == p.ax && K.pre == p.pre) with
+    match sigOf p with
     | some K => resolve K p
     | none => { name := p.name, d := p.d, ax := p.ax, pre := p.pre, allocs := [], solAllocOk := false, migAxes := [], nest := [],
                 stmts := [.bad "no signature"] }
